@@ -5,6 +5,7 @@ package flyt
 import (
 	"context"
 	"errors"
+	"fmt"
 	"time"
 )
 
@@ -27,6 +28,7 @@ type c20Mon struct {
 	execDur    time.Duration
 	inExec     bool
 	cancelInExec bool
+	errForm    int
 }
 
 func (m *c20Mon) exec() (err error) {
@@ -62,6 +64,16 @@ func (m *c20Mon) exec1() error {
 	}
 	m.lastEnd = now
 	if vNondet[bool]("fail") {
+		switch m.errForm {
+		// an attempt that failed on its own inner timeout / cancelled sub-call while the run's
+		// context is alive: a failed attempt like any other, the wait applies
+		case 1:
+			vCover("attempt-error-wraps-a-context-error")
+			return fmt.Errorf("inner call: %w", context.DeadlineExceeded)
+		case 2:
+			vCover("attempt-error-wraps-a-context-error")
+			return fmt.Errorf("inner call: %w", context.Canceled)
+		}
 		return vNewErr()
 	}
 	return nil
@@ -93,6 +105,7 @@ func (m *c20Mon) setup() {
 		vAssume(m.execDur > 0 && m.execDur <= 1<<40)
 		vCover("exec-takes-time")
 	}
+	m.errForm = vChoice("errForm", 3) // one form for all failing attempts of the run
 	m.timersAt0 = vTimers()
 }
 
